@@ -13,9 +13,9 @@ from decimal import Decimal
 ACCOUNTS = ["Assets:Bank", "Assets:Cash", "Expenses:Food", "Expenses:Eating Out", "Income:Salary", "Equity:Opening",
             "Liabilities:Card", "資産:現金"]
 ACCOUNT_ALIASES = {
-    "Assets:Bank": ["bank", "B:1", "Assets:ZKB"], "Assets:Cash": ["cash", "Wallet"], "Expenses:Food": ["food", "Expenses:Grocery"],
+    "Assets:Bank": ["bank", "B:1", "Assets:ZKB"], "Assets:Cash": ["cash", "Wallet", "Cash, petty"], "Expenses:Food": ["food", "Expenses:Grocery"],
     "Expenses:Eating Out": ["eo", "Expenses:Restaurant Bills"], "Income:Salary": ["salary", "Income:Job"],
-    "Equity:Opening": ["opening"], "Liabilities:Card": ["card", "Visa Card"], "資産:現金": ["げんきん", "genkin"],
+    "Equity:Opening": ["opening"], "Liabilities:Card": ["card", "Visa Card", "Card, Visa"], "資産:現金": ["げんきん", "genkin"],
 }
 COMMODITIES = ["USD", "EUR", "AAA", "JPY"]
 COMMODITY_ALIASES = {"USD": ["US$", "Dollar"], "EUR": ["€", "Euro"], "AAA": ["Triple", "AAA_"], "JPY": ["円", "Yen"]}
@@ -97,6 +97,15 @@ def lead(k, v):
     return [" ", " ", "  ", "   ", "\t", " \t "][(sum(map(ord, v)) + len(k)) % 6]
 
 
+def indent(k, v, prev):
+    """the indentation of a sub-directive line: any run of blanks / tabs; a line under a `note` line is often indented DEEPER than
+    the note (it still is a sub-directive of its own, never a continuation of the note) (deterministic in the text)"""
+    base = ["    ", "  ", "    ", "\t", "      "][(sum(map(ord, v)) + 3 * len(k)) % 5]
+    if prev == "note" and (sum(map(ord, v)) % 3) != 0:
+        return "        "
+    return base
+
+
 class Entry:
     """kind: 'txn' | 'account' | 'commodity' | 'comment' """
 
@@ -117,13 +126,17 @@ class Entry:
             return "; " + self.body + "\n"
         if self.kind == "account":
             s = "account %s%s\n" % (self.name, trail(self.name))
+            prev = None
             for k, v in self.details:
-                s += "    %s%s%s%s\n" % (k, lead(k, v), v, trail(v) if k == "alias" else "")
+                s += "%s%s%s%s%s\n" % (indent(k, v, prev), k, lead(k, v), v, trail(v) if k == "alias" else "")
+                prev = k
             return s
         if self.kind == "commodity":
             s = "commodity %s%s\n" % (self.name, trail(self.name))
+            prev = None
             for k, v in self.details:
-                s += "    %s%s%s%s\n" % (k, lead(k, v), v, trail(v) if k == "alias" else "")
+                s += "%s%s%s%s%s\n" % (indent(k, v, prev), k, lead(k, v), v, trail(v) if k == "alias" else "")
+                prev = k
             return s
         s = "%s %s\n" % (self.date, self.payee)
         for p in self.postings:
